@@ -725,6 +725,11 @@ class PyvalColorizer:
 
     def _colorize_ast_re(self, node:ast.Call, state: _ColorizerState) -> None:
         
+        if any(kw.arg is None for kw in node.keywords):
+            # bind_args() ignores keywords passed with '**kwargs', they would be lost.
+            self._colorize_ast_call_generic(node, state)
+            return
+
         try:
             # Can raise TypeError
             args = bind_args(self.RE_COMPILE_SIGNATURE, node)
